@@ -92,6 +92,8 @@ def run_property(prop: str, tier: str, only: tuple | None = None) -> int:
             print(ln)
         for ob in violations:
             print(f"  REFUTED {ob.rule} [{ob.instance}] at {ob.file}:{ob.line} in {ob.function or '?'}")
+            if os.environ.get("GSA_DETAILS"):
+                print(f"    expected: {common.short(ob.expected, 1200)}\n    found:    {common.short(ob.found, 1200)}")
         return 1 if violations else 0
     write_evidence(prop, tier, level, rep, wall, len(violations), meta.get("explanation", ""),
                    meta.get("assumptions", []), extra, known_lines)
